@@ -1,0 +1,38 @@
+//go:build verif
+
+package syncer
+
+import (
+	"github.com/PowerDNS/lightningstream/snapshot"
+	"github.com/PowerDNS/lightningstream/syncer/cleaner"
+)
+
+// VerifCleaner exposes the cleaner worker of this Syncer to runtime monitors.
+func (s *Syncer) VerifCleaner() *cleaner.Worker {
+	return s.cleaner
+}
+
+// VerifInstanceID exposes the sanitised instance name.
+func (s *Syncer) VerifInstanceID() string {
+	return s.instanceID()
+}
+
+// VerifDupSortEncodeOne exposes dupSortHackEncodeOne.
+func VerifDupSortEncodeOne(e snapshot.KV) (snapshot.KV, error) {
+	return dupSortHackEncodeOne(e)
+}
+
+// VerifDupSortDecodeOne exposes dupSortHackDecodeOne.
+func VerifDupSortDecodeOne(e snapshot.KV) (snapshot.KV, error) {
+	return dupSortHackDecodeOne(e)
+}
+
+// VerifDupSortEncode exposes dupSortHackEncode.
+func VerifDupSortEncode(d *snapshot.DBI) (*snapshot.DBI, error) {
+	return dupSortHackEncode(d)
+}
+
+// VerifDupSortDecode exposes dupSortHackDecode.
+func VerifDupSortDecode(d *snapshot.DBI) (*snapshot.DBI, error) {
+	return dupSortHackDecode(d)
+}
